@@ -575,6 +575,22 @@ class _ScopeVisitor(_ExpressionVisitor):
             self.names[name] = pyname
 
 
+    def _Nonlocal(self, node):
+        # the names belong to the nearest enclosing function scope that binds
+        # them; without this an assignment would create a new local here
+        if self.owner_object is None or self.owner_object.parent is None:
+            return
+        scope = self.owner_object.parent.get_scope()
+        while scope is not None and scope.get_kind() == "Class":
+            scope = scope.parent
+        if scope is None:
+            return
+        for name in node.names:
+            pyname = scope.lookup(name)
+            if pyname is not None:
+                self.names[name] = pyname
+
+
 class _ComprehensionVisitor(_ScopeVisitor):
     def _comprehension(self, node):
         self.visit(node.target)
